@@ -15,13 +15,16 @@ def pipeline_line(sc, b):
     wu = np.array([w.up_vector for w in walls], dtype=float)
     samp = energy.sampling_of(sc)
     ref = np.array([[0., 0., 1.]]) if samp is None else np.asarray(samp.cartesian)
+    samp_i = energy.sampling_in_of(sc)
+    ref_in = np.array([[0., 0., 1.]]) if samp_i is None else np.asarray(samp_i.cartesian)
     n = len(ref)
+    n_in = len(ref_in)
     if sc['tables'] is not None:
         tabs = np.array([t[:, :, b] for t in sc['tables']]) * np.pi
     else:
-        tabs = np.array([np.ones((n, n)) * (1 - sc['absorption'][w, b]) / np.pi for w in range(6)]) * np.pi
+        tabs = np.array([np.ones((n_in, n)) * (1 - sc['absorption'][w, b]) / np.pi for w in range(6)]) * np.pi
     S = int(energy.duration_of(sc) / sc['dt'])
-    toks = ['pipeline', '6', fhex(sc['patch']), fhexs(wp), fhexs(wn), fhexs(wu), str(n), str(n), '6', fhexs(ref), fhexs(ref),
+    toks = ['pipeline', '6', fhex(sc['patch']), fhexs(wp), fhexs(wn), fhexs(wu), str(n_in), str(n), '6', fhexs(ref_in), fhexs(ref),
             ' '.join(str(w) for w in range(6)), fhexs(tabs), fhex(sc['att'][b]), fhex(sc['c']), fhex(sc['dt']), str(S), str(max(sc['K'], 0)),
             fhexs(sc['src']), fhexs(sc['recs'][0])]
     return ' '.join(toks)
